@@ -262,7 +262,9 @@ class Gen:
         elif kind in ("sliced_cls", "getitem", "getrow"):
             a, fa = opnd()
             lo, hi = sorted(g.sample(range(0, n + 1), 2)) if n >= 1 else (0, 1)
-            s0 = [lo, hi] if g.random() < 0.8 else [0, n, 2]
+            u = g.random()
+            # contiguous / every second row / all rows in reverse order / a reversed run
+            s0 = [lo, hi] if u < 0.7 else [0, n, 2] if u < 0.8 else [None, None, -1] if u < 0.92 else [max(hi - 1, 0), None, -1]
             s1 = s0 if g.random() < 0.5 else ([0, max(1, n - 1)] if g.random() < 0.7 else None)
             if kind == "getrow":
                 r = {"k": "getrow", "of": a, "s0": s0}
@@ -831,6 +833,18 @@ KINDS = {  # name -> (slot, recipe, rows, cols)
     "sum_if": ("su_if", {"k": "sum", "args": [ID, DN]}, N, N),
     "bd_if": ("bd_if", {"k": "blockdiag", "args": [I2, D2]}, 4, 4),
     "sliced_full": ("sl_full", {"k": "sliced_cls", "of": DN, "s0": [0, N], "s1": [0, N]}, N, N),
+    # column-major and transposed-view payloads (what LAPACK wrappers may overwrite without a copy)
+    "dense_f": ("Dfo", {"k": "dense", "n": N, "seed": 131, "sym": "gen", "layout": "f"}, N, N),
+    "psd_f": ("Pfo", _psd({"k": "dense", "n": N, "seed": 132, "sym": "psd", "layout": "f"}), N, N),
+    "psd_tview": ("Ptv", _psd({"k": "dense", "n": N, "seed": 133, "sym": "psd", "layout": "tview"}), N, N),
+    "sa_f": ("Sfo", _sa({"k": "dense", "n": N, "seed": 134, "sym": "sym", "layout": "f"}), N, N),
+    "psd_of_T": ("PoT", _psd({"k": "T", "of": {"k": "dense", "n": N, "seed": 135, "sym": "psd"}}), N, N),
+    # every row / column selected, in another order; stepped selections (through the public A[...] indexing)
+    "sl_rev": ("sl_rev", {"k": "getitem", "of": DN, "s0": [None, None, -1], "s1": None}, N, N),
+    "sl_rev_cols": ("sl_revc", {"k": "getitem", "of": DN, "s0": None, "s1": [None, None, -1]}, N, N),
+    "sl_rev_part": ("sl_revp", {"k": "getitem", "of": DN, "s0": [None, None, -1], "s1": [1, N]}, N, N - 1),
+    "sl_rev_both": ("sl_revb", {"k": "getitem", "of": DG, "s0": [None, None, -1], "s1": [None, None, -1]}, N, N),
+    "sl_step2": ("sl_st2", {"k": "getitem", "of": DN, "s0": [0, N, 2], "s1": None}, (N + 1) // 2, N),
     "scalar_one": ("sc_one", {"k": "scalar", "c": 1.0, "n": N}, N, N),
     "tr_identity": ("tr_id", {"k": "transpose_cls", "of": ID}, N, N),
     # user-defined operator classes (the class definition is re-executed for "fresh": new class, same qualified name)
